@@ -72,7 +72,7 @@ def _run_one(args):
         except AnalysisError as exc:
             return m['name'], 'analysis-error', [str(exc)]
         if isinstance(out, int):
-            return m['name'], 'analysis-error', [buf.getvalue()[-300:]]
+            return m['name'], 'analysis-error', [l for l in buf.getvalue().splitlines() if l.startswith('ANALYSIS-ERROR')][:2]
         _, results = out
         found = [(f.rule, f.construct, f.detail) for r in results for f in r.findings]
         return m['name'], 'ran', found
@@ -114,7 +114,7 @@ def run_for_property(prop, repo, jobs=16):
         elif status == 'ran' and any(r == rule and construct in c for r, c, _ in new):
             detected.append(name)
         else:
-            problems.append(f'mutant {name}: expected {rule} on {construct}, got {status} {new[:3]}')
+            problems.append(f'mutant {name}: expected {rule} on {construct}, got {status} {(new or found)[:3]}')
     if problems:
         raise AnalysisError('mutant battery: the checker failed its own tests: ' + ' | '.join(problems))
     return {'mutants': len(specs), 'detected': detected, 'twins_silent': silent, 'skipped_anchor_absent': skipped}
